@@ -1,5 +1,6 @@
 //! vh — conformance harness: replays TLC-generated behaviours into the real varlink code and
 //! records traces of the real code for validation against the TLA+ specifications.
+mod client;
 mod conn;
 mod connmc;
 mod connref;
@@ -25,6 +26,9 @@ fn main() {
         "conn" => connmc::run(rest),
         "cuts" => cuts::run(rest),
         "poolobs" => poolobs::run(rest),
+        "client" => client::run(rest),
+        "clientreal" => client::run_real(rest),
+        "clienttrace" => client::run_trace(rest),
         "listen" => listen::run(rest),
         "pool" => pool::run(rest),
         "pooltrace" => pool::run_trace(rest),
